@@ -4,6 +4,9 @@ from connlib import run_bigbin, replay_bigbin, COQ_FILES, run_cases, describe, p
 from vlib import Failure, finish, unhexs, hexs
 
 
+ALLCUTS = set()      # streams split at every position (and every pair of positions) in the quick tier too
+
+
 def streams(ctx):
     rng = ctx.rng
     out = []
@@ -12,6 +15,16 @@ def streams(ctx):
             (b"binary: 3\nab\n\nOK\n", "eof"), (b"binary: 3\nabc\nOK\nx: y\nOK\n", "err"), (b"ACK [5@0] {} x\nOK\n", "eof"),
             (b"list_OK\nlist_OK\nOK\nfoo: bar\nlist_OK\nACK [2@1] {x} m\n", "eof"), (b"", "eof"), (b"", "err"),
             (b"O", "err"), (b"binary: 18446744073709551616\nOK\n", "eof"), (b"binary: 5\nab", "eof")]
+    # short complete responses that begin like a keyword an earlier alternative of the grammar waits for (l.. list_OK, b.. binary:,
+    # O.. OK, A.. ACK): a read ending inside that prefix must not make the parser wait for more than the response holds.  Every split.
+    for k_ in ("l", "li", "list_O", "list_OK", "b", "bi", "binary", "binar", "O", "OK", "A", "AC", "ACK", "o", "a"):
+        for v_ in ("", "x", "1"):
+            for tailr in (b"OK\n", b"OK\nOK\n", b"list_OK\nOK\n"):
+                st = k_.encode() + b": " + v_.encode() + b"\n" + tailr
+                if k_ == "binary" and v_ == "1":
+                    continue
+                ALLCUTS.add(st)
+                out.append((st, "eof"))
     n = 120 if ctx.tier == "quick" else 1200
     for i in range(n):
         k = rng.choice([1, 1, 2, 3, 5])
@@ -63,10 +76,10 @@ def gen(ctx):
         if len(s) > 3000:
             segs += [g.seg_random(rng, s, maxlen=4096), g.seg_random(rng, s, maxlen=4095), g.seg_random(rng, s, maxlen=5000),
                      [s[i:i + 4096] for i in range(0, len(s), 4096)], [s[:100]] + [s[100:]], g.seg_random(rng, s, maxlen=20000)]
-        if ctx.tier == "thorough" and len(s) <= 64:
+        if (ctx.tier == "thorough" and len(s) <= 64) or s in ALLCUTS:
             for i in range(1, len(s)):
                 segs.append([s[:i], s[i:]])
-                if len(s) <= 24:
+                if len(s) <= (24 if ctx.tier == "thorough" else 9):
                     for j in range(i + 1, len(s)):
                         segs.append([s[:i], s[i:j], s[j:]])
         idx = []
